@@ -92,7 +92,9 @@ Section Readers.
     let s := rd_scan B true ls {| rd_n := 0; rd_date := arr0; rd_pay := pay0 |} in
     {| rd_n := rd_n s; rd_date := shift_all (rd_n s) (rd_date s); rd_pay := rd_pay s |}.
 
-  (* irrigation: ANZBREG := 0, no shift loop; afterwards slots ANZBREG..499 are zeroed (input.go:327-331) *)
+  (* irrigation: ANZBREG := 0, no shift loop; afterwards slots ANZBREG..499 are zeroed (input.go:327-331).
+     NOTE: the irrigation file is read (input.go:304) before the rotation file sets g.BEGINN (input.go:590), so
+     the caller passes B = 0 for a fresh run: no irrigation line is ever dropped. *)
   Definition irr_read (B : Z) (ls : list (line P)) : rd P :=
     let s := rd_scan B true ls {| rd_n := 0; rd_date := arr0; rd_pay := pay0 |} in
     {| rd_n := rd_n s;
